@@ -32,6 +32,7 @@ structure Sv where
   blocks : List (List Bytes × Nat × Nat) := []    -- executed request blocks: (lines, start, end offset of the reply)
   authLines : List Bytes := []                    -- lines received while locked (other than password)
   binLimit : Option Nat := none                   -- set by `binarylimit N`: overrides the URI's chunk limit
+  marks : List Nat := []                          -- end offsets of the complete responses written so far
 deriving Repr, Inhabited
 
 /-- deterministic picture bytes (contain protocol look-alikes) -/
@@ -110,7 +111,8 @@ def execOne (lim : Option Nat) (line : Bytes) : Except (Nat × Bytes × Bytes ×
 def ack (code idx : Nat) (cmd msg : Bytes) : Bytes :=
   str "ACK [" ++ natToDec code ++ [64] ++ natToDec idx ++ str "] {" ++ cmd ++ str "} " ++ msg ++ [LF]
 
-def emitOut (s : Sv) (b : Bytes) : Sv := { s with out := s.out ++ b }
+/-- every call writes one complete response -/
+def emitOut (s : Sv) (b : Bytes) : Sv := { s with out := s.out ++ b, marks := s.marks ++ [s.out.length + b.length] }
 
 def flushIdle (s : Sv) : Sv :=
   let body := s.pend.flatMap (fun n => str "changed: " ++ n ++ [LF]) ++ str "OK\n"
